@@ -158,6 +158,41 @@ class Ctx:
                 self.errors = [e for e in self.errors if not (e.startswith(rid + " ") or e.startswith(rid + ":")) or (only is not None and only not in e)]
                 self.notes.append(f"{rid}: deferred to {', '.join(semantic)}")
 
+    def defer_within(self, rid, weak, strong, also=()):
+        """Inside ONE rule: instances that only know a code shape (`weak(site, detail)` true) defer to the instances of the same rule
+        that decide the clause by interpretation (`strong(site)` true) and to the rules in `also`: when all of those hold, a weak
+        VIOLATED / UNRECOGNISED instance becomes HOLDS; when some of those could not be evaluated (and none is violated), a weak
+        VIOLATED becomes `cannot decide`."""
+        r = self.rules.get(rid)
+        if r is None:
+            return
+        deciders = [i for i in r.instances if strong(str(i[0]))]
+        for o in also:
+            if o in self.rules:
+                deciders += list(self.rules[o].instances)
+        if not deciders or any(i[1] == "VIOLATED" for i in deciders):
+            return
+        all_hold = all(i[1] == "HOLDS" for i in deciders)
+        touched = []
+        for k, (site, outcome, detail) in enumerate(r.instances):
+            if strong(str(site)) or not weak(str(site), str(detail)):
+                continue
+            if outcome in ("VIOLATED", "UNRECOGNISED") and all_hold:
+                r.instances[k] = (site, "HOLDS", "code shape differs from the pattern this instance knows; the behaviour is decided by the interpreted instances of this rule" + (" and " + ", ".join(also) if also else ""))
+                touched.append(str(site))
+            elif outcome == "VIOLATED":
+                r.instances[k] = (site, "UNRECOGNISED", f"{detail} -- but the interpreted instances that decide this clause could not be evaluated: not reported as a violation")
+                self.errors.append(f"{rid} {site}: code shape differs from the pattern this instance knows and the interpreted instances could not decide")
+                touched.append(str(site))
+        if touched:
+            keep = []
+            for v in self.violations:
+                vs = f"{v.relpath}::{v.qualname}: {v.construct}"
+                keep.append(v) if not (v.rule == rid and vs in touched) else None
+            self.violations = keep
+            if all_hold:
+                self.errors = [e for e in self.errors if not (e.startswith(rid + " ") and any(t in e for t in touched))]
+
     def undecided(self, rid, site, why):
         self.rules[rid].undecided += 1
         self.rules[rid].instances.append((site, "UNDECIDED", why))
